@@ -78,6 +78,7 @@ class Table:
         self.ex: Expander = ctx.expand
         self.inline_depth = inline_depth
         self._rows_memo: Dict[str, List[Row]] = {}
+        self._synthetic = []
         self._body = body     # analyse this statement list of fi (e.g. an exception handler's body) instead of the whole body
         seed: Dict[str, ast.expr] = {}
         a = fi.node.args
@@ -141,13 +142,29 @@ class Table:
             count[0] += 1
             if count[0] > MAX_PATHS:
                 raise AnalysisError("decision table of %s: too many paths" % fi.qname)
+            if isinstance(s, ast.Return) and isinstance(s.value, ast.IfExp):
+                # same decision as `if c: return A` / `else: return B` (lets helper calls in the branches be spliced in)
+                synth = ast.If(test=s.value.test, body=[ast.Return(value=s.value.body, lineno=s.lineno, col_offset=s.col_offset)],
+                               orelse=[ast.Return(value=s.value.orelse, lineno=s.lineno, col_offset=s.col_offset)],
+                               lineno=s.lineno, col_offset=s.col_offset)
+                self._synthetic.append(synth)
+                block([synth] + rest, env, conds, cont)
+                return
             if isinstance(s, ast.Return):
                 inl = self._inline_return(s, fi, env, conds, depth)
                 if inl is not None:
                     rows.extend(inl)
                     return
                 val = self.canon(s.value, fi, env) if s.value is not None else ast.Constant(None)
-                rows.append(Row(list(conds), "return", val, fi, s))
+                # `return A if c else B` is the same decision as `if c: return A` / `return B`
+                stack = [(list(conds), val)]
+                while stack:
+                    cs, v = stack.pop(0)
+                    if isinstance(v, ast.IfExp) and len(stack) < 64:
+                        stack.insert(0, (cs + [(v.test, False)], v.orelse))
+                        stack.insert(0, (cs + [(v.test, True)], v.body))
+                    else:
+                        rows.append(Row(cs, "return", v, fi, s))
                 return
             if isinstance(s, ast.Raise):
                 rows.append(Row(list(conds), "raise", self.canon(s.exc, fi, env) if s.exc is not None else None, fi, s))
